@@ -307,16 +307,54 @@ def c17_tape(check, pid, tier, seed):
 
 # ------------------------------------------------------------------------------------------- Miri-scheduled scenarios
 
-MIRI_CLASS = {"C02": "c02", "C03": "c03", "C04": "c04", "C08": "c08", "C09": "c09"}
+MIRI_CLASS = {"C02": ["c02"], "C03": ["c03"], "C04": ["c04"], "C08": ["c08"], "C09": ["c09"],
+              # single-thread histories with injected faults (c00: leaks after an unwinding constructor are
+              # legal, leak checker off) and the same histories fault-free under the leak checker (c01)
+              "C01": ["c00", "c01"], "C05": ["c00", "c01"], "C06": ["c00", "c01"], "C07": ["c00", "c01"], "C10": ["c00", "c01"], "C11": ["c00", "c01"],
+              "C12": ["c00", "c01"], "C15": ["c00", "c01"]}
+MIRI_SEQ = ("c00", "c01")
+# which properties each operation of a sequential history belongs to (life-story attribution)
+MIRI_OP_PROPS = {"iter": {"C06"}, "faulty-iter": {"C06", "C07"}, "vec": {"C06"}, "slice": {"C06"}, "uninit": {"C15"}, "sized": {"C06"}, "thin": {"C10"}, "with_arc_mut": {"C10", "C07"},
+                 "raw": {"C11"}, "offset": {"C11"}, "dyn": {"C11"}, "union": {"C12"}, "cow": {"C08"}, "uniq": {"C03"}, "unwrap": {"C09"}, "clone": set(), "header-length": {"C10"}}
 
 def _miri_cmd(check, cls, seed, lo, hi, mseed, rate):
     env = dict(os.environ)
     env["CARGO_NET_OFFLINE"] = "true"
     env.pop("RUSTFLAGS", None)
     env["MIRIFLAGS"] = f"-Zmiri-disable-stacked-borrows -Zmiri-preemption-rate={rate} -Zmiri-seed={mseed}"
+    if cls in MIRI_SEQ:
+        env["MIRIFLAGS"] += " -Zmiri-symbolic-alignment-check" + (" -Zmiri-ignore-leaks" if cls == "c00" else "")
     env["VERIF_REPO"] = check.REPO
     cmd = ["cargo", "+nightly", "miri", "run", "--offline", "--quiet", "--target-dir", os.path.join(check.TARGET, "miri"), "--", cls, str(seed), str(lo), str(hi)]
     return cmd, env
+
+def miri_attribute_seq(check, stdout, stderr):
+    """Sequential histories: the kind of report plus the operations the failing history went through."""
+    props = set()
+    text = stderr
+    vr = [l for l in stdout.splitlines() if l.startswith("VIOLATION-RECORD")]
+    if vr:
+        cls = vr[0].split("\t")[1]
+        props |= check.class_props(cls, False)
+    elif "incorrect layout on deallocation" in text or "deallocating" in text and "which is" in text:
+        props |= {"C05", "C01"}
+    elif "uninitialized" in text:
+        props |= {"C15", "C07", "C06", "C01"}
+    elif "alignment" in text and "required" in text:
+        props |= {"C05", "C11"}
+    elif "out-of-bounds" in text or "dangling" in text or "has been freed" in text or "use-after-free" in text.lower():
+        props |= {"C01", "C05"}
+    elif "memory leaked" in text:
+        props |= {"C01"}
+    else:
+        props |= {"C01", "C05"}
+    # the failing history's own operations
+    lines = stdout.splitlines()
+    last = max([i for i, l in enumerate(lines) if l.startswith("BEGIN")] or [0])
+    for l in lines[last:]:
+        if l.startswith("OP\t"):
+            props |= MIRI_OP_PROPS.get(l.split("\t")[1], set())
+    return props
 
 def miri_attribute(pid_of_class, stderr):
     """Which properties a Miri report is evidence against."""
@@ -346,8 +384,20 @@ def miri_engine(check, pid, tier, seed):
     """Generated 2-3 thread scenarios on real threads inside Miri: Miri's seeded scheduler and
     weak-memory emulation decide the execution, its data-race detector is the oracle.
     Returns (coverage dict, reported infos, evaluations)."""
-    cls = MIRI_CLASS[pid]
+    covs, reps, evs = {}, [], 0
+    for cls in MIRI_CLASS[pid]:
+        cov, reported, done = _miri_engine_class(check, pid, tier, seed, cls)
+        key = "miri_scheduled" if cls not in MIRI_SEQ else f"miri_sequential_{cls}"
+        covs[key] = cov.get("miri_scheduled", cov)
+        reps += reported
+        evs += done
+    return covs, reps[:4], evs
+
+def _miri_engine_class(check, pid, tier, seed, cls):
     t0 = time.time()
+    if cls in MIRI_SEQ:
+        # each property draws its own histories
+        seed = seed * 1000 + int(pid[1:])
     r = subprocess.run([sys.executable, os.path.join(check.HERE, "tools", "gen_shadow.py")], env=dict(os.environ, VERIF_REPO=check.REPO))
     lock = os.path.join(check.HERE, "mirisim", "Cargo.lock")
     if not os.path.exists(lock):
@@ -405,7 +455,23 @@ def miri_engine(check, pid, tier, seed):
         with open(path, "w") as f:
             f.write(f"trisim-miri v1\nclass {cls}\nseed {seed}\nfrom {lo}\nto {last + 1}\nmiri-seed {mseed}\npreemption {rate}\n# class: {cls_name}\n# detail: {detail}\n")
             f.write("# " + "\n# ".join(err.strip().splitlines()[:40]) + "\n")
-        props = miri_attribute(pid, err)
+        props = miri_attribute_seq(check, out, err) if cls in MIRI_SEQ else miri_attribute(pid, err)
+        if cls in MIRI_SEQ:
+            # histories are independent: the replay is the failing history alone (for a leak, which
+            # Miri reports at process end, the first history of the chunk that leaks on its own)
+            one = last
+            if "memory leaked" in err and not vr:
+                def leaks(i):
+                    c2, e2 = _miri_cmd(check, cls, seed, i, i + 1, mseed, rate)
+                    p2 = subprocess.run(c2, cwd=mdir, env=e2, stdout=subprocess.PIPE, stderr=subprocess.PIPE, text=True)
+                    return i, ("memory leaked" in p2.stderr), p2.stdout
+                hits = [(i, o) for i, bad, o in _children(list(range(lo, hi)), leaks, nw) if bad]
+                if hits:
+                    one = hits[0][0]
+                    props = miri_attribute_seq(check, hits[0][1], err)
+            with open(path, "w") as f:
+                f.write(f"trisim-miri v1\nclass {cls}\nseed {seed}\nfrom {one}\nto {one + 1}\nmiri-seed {mseed}\npreemption {rate}\n# class: {cls_name}\n# detail: {detail}\n")
+                f.write("# " + "\n# ".join(err.strip().splitlines()[:40]) + "\n")
         info = dict(cls=cls_name, detail=detail, replay=path, props=props)
         if pid in props:
             reported.append(info)
@@ -413,6 +479,23 @@ def miri_engine(check, pid, tier, seed):
             check.log(f"note: the Miri-scheduled scenarios of {pid} hit a report attributed to {sorted(props)}: {detail}")
     per = chunk
     wall = time.time() - t0
+    if cls in MIRI_SEQ:
+        fk = {}
+        for w, lo, hi, mseed, rate, rc, out, err in results:
+            for l in out.splitlines():
+                if l.startswith("STATS\t"):
+                    for kv in l.split("\t")[1:]:
+                        k, v = kv.split("=")
+                        fk[k] = fk.get(k, 0) + int(v)
+        cov = {"miri_scheduled": {
+            "what": ("generated single-thread histories (36 header x element shape pairs incl. zero-sized, over-aligned and destructor-bearing ones; every constructor family; thin/raw/offset/dyn/union "
+                     "conversions, clones, copy-on-write, unwraps; seeded release order) run inside Miri, which judges every byte the library itself touches: uninitialised or freed reads, out-of-bounds "
+                     "and misaligned accesses, a release with the wrong layout" + ("; faults armed: iterators that panic at their k-th call or misreport their length, callbacks that panic after replacing the Arc "
+                     "(the library documents that an unwinding constructor leaks its block, so the leak checker is off)" if cls == "c00" else "; fault-free, so Miri's leak checker is on as well")),
+            "history_class": cls, "histories_executed": done, "concurrent_processes": nw, "histories_per_process": per, "processes": len(chunks),
+            "fault_kinds_fired": fk, "reports": ub_reports, "wall_s": round(wall, 1),
+            "flags": "-Zmiri-disable-stacked-borrows -Zmiri-symbolic-alignment-check" + (" -Zmiri-ignore-leaks" if cls == "c00" else "")}}
+        return cov, reported[:4], done
     cov = {"miri_scheduled": {
         "what": "generated 2-3 thread clone/read/convert/drop (+ class-specific) scenarios on real threads inside Miri; Miri's seeded scheduler and weak-memory emulation decide the execution, its data-race / use-after-free / leak detection is the oracle; it also sees the library's own non-atomic accesses, which the baton simulator cannot",
         "scenario_class": cls, "scenarios_executed": done, "concurrent_processes": nw, "scenarios_per_process": per, "processes": len(chunks),
